@@ -187,7 +187,9 @@ theorem transient_fair_delivers_all (r : Resp) (hw : WFp r) (f : Nat → Round) 
 
 /-- Release exactly once, for EVERY fault script: while the reply is in progress nothing has been
     notified or released; after an error close there is exactly one completion notification
-    (WITH_ERROR) iff the request had been presented to the application, the response reference
+    (WITH_ERROR — or COMPLETED_OK when a reader of the `failEos` kind ended the body early by
+    END_OF_STREAM, which is what try_ready_normal_body reports —) iff the request had been presented
+    to the application, the response reference
     has been dropped exactly once, the pool destroyed exactly once, the connection inserted into
     the clean-up list at most once; after a completed reply one notification iff presented
     (COMPLETED_OK, or WITH_ERROR for an automatic error reply), the response reference dropped
@@ -197,8 +199,8 @@ theorem release_exactly_once (r : Resp) (allocStart : Bool) (xs : List Round) :
     (c.st ≠ .closed → c.st ≠ .done →
       c.bk.notes = [] ∧ c.bk.aware = r.aware ∧ c.bk.respHeld = true ∧ c.bk.respDrops = 0 ∧ c.bk.poolLive = true ∧
       c.bk.poolDestroys = 0 ∧ c.bk.poolResets = 0 ∧ c.bk.cstClosed = false ∧ c.bk.cleanups = 0 ∧ c.bk.inCleanup = false) ∧
-    (c.st = .closed →
-      c.bk.notes = (if r.aware then [Term.withError] else []) ∧ c.bk.aware = false ∧
+    (c.st = .closed → ∃ t, (t = Term.withError ∨ (r.failEos = true ∧ t = Term.completedOk)) ∧
+      c.bk.notes = (if r.aware then [t] else []) ∧ c.bk.aware = false ∧
       c.bk.respHeld = false ∧ c.bk.respDrops = 1 ∧ c.bk.poolLive = false ∧ c.bk.poolDestroys = 1 ∧
       c.bk.poolResets = 0 ∧ c.bk.cstClosed = true ∧ c.bk.cleanups = (if c.bk.inCleanup then 1 else 0)) ∧
     (c.st = .done →
@@ -227,15 +229,23 @@ theorem permanent_failure_releases_once (r : Resp) (allocStart : Bool) (xs : Lis
     let c' := run r (round r c x) ys
     round r c x = round r c { x with s1 := .full } ∨
     (c'.st = .closed ∧ c'.out = c.out ∧
-     c'.bk.notes = (if r.aware then [Term.withError] else []) ∧ c'.bk.aware = false ∧
+     (∃ t, (t = Term.withError ∨ (r.failEos = true ∧ t = Term.completedOk)) ∧
+           c'.bk.notes = (if r.aware then [t] else [])) ∧ c'.bk.aware = false ∧
      c'.bk.respHeld = false ∧ c'.bk.respDrops = 1 ∧ c'.bk.poolLive = false ∧ c'.bk.poolDestroys = 1 ∧
      c'.bk.poolResets = 0 ∧ c'.bk.inCleanup = true ∧ c'.bk.cleanups = 1) := by
   intro c c'
   rcases permanent_closes_aux (r := r) (c := c) e he x hwr hs1 with ⟨hst, hout⟩ | hsame
   · right
     have hb : Book r c := run_book_inv xs _ (start_book r allocStart)
-    have hbk := round_closed_bk hb x hst
-    have hfin : c'.st = .closed ∧ c'.out = c.out ∧ c'.bk = ((Bk.init r.aware).close .withError).fin := by
+    obtain ⟨t, ht, hbk⟩ := round_closed_bk hb x hst
+    have ht' : t = Term.withError ∨ (r.failEos = true ∧ t = Term.completedOk) := by
+      rcases ht with ht | ht
+      · exact Or.inl ht
+      · unfold readerTerm at ht
+        cases hf : r.failEos
+        · left; rw [ht, hf]; rfl
+        · right; exact ⟨rfl, by rw [ht, hf]; rfl⟩
+    have hfin : c'.st = .closed ∧ c'.out = c.out ∧ c'.bk = ((Bk.init r.aware).close t).fin := by
       rcases run_final (r := r) ys (round r c x) (Or.inl hst) with e' | e'
       · show (run r (round r c x) ys).st = _ ∧ (run r (round r c x) ys).out = _ ∧ (run r (round r c x) ys).bk = _
         rw [e']; exact ⟨hst, hout, hbk⟩
@@ -243,10 +253,47 @@ theorem permanent_failure_releases_once (r : Resp) (allocStart : Bool) (xs : Lis
         rw [e', idleClosed_st, idleClosed_out, idleClosed_bk, hbk]
         exact ⟨hst, hout, Bk.fin_idem _⟩
     obtain ⟨h1, h2, h3⟩ := hfin
-    refine ⟨h1, h2, ?_⟩
-    rw [h3]
-    cases r.aware <;> decide
+    refine ⟨h1, h2, ⟨t, ht', ?_⟩, ?_⟩
+    · rw [h3]; cases r.aware <;> cases t <;> decide
+    · rw [h3]; cases r.aware <;> cases t <;> decide
   · left; exact hsame
+
+/-- A content reader that ends the body before the declared size (known size, no chunking) —
+    by MHD_CONTENT_READER_END_WITH_ERROR, or prematurely by MHD_CONTENT_READER_END_OF_STREAM
+    (`r.failEos`) —: try_ready_normal_body closes the connection at once, sends nothing more, records
+    the position reached as the size, and reports WITH_ERROR resp. COMPLETED_OK (the code's choice
+    for END_OF_STREAM); the response reference and the pool go exactly once (`Bk.close`). -/
+theorem reader_failure_closes (r : Resp) (c : Conn) (alloc : Bool) (hk : r.kind = .callback)
+    (h0 : ¬ (c.tot = 0 ∨ c.rp = c.tot)) (hwin : ¬ (c.ds ≤ c.rp ∧ c.rp < c.dz + c.ds)) (hsf : c.sf = false) :
+    let c' := (tryReadyNormalBody r c .err alloc).1
+    (tryReadyNormalBody r c .err alloc).2 = false ∧ c'.st = .closed ∧ c'.out = c.out ∧ c'.tot = c.rp ∧
+    c'.bk = c.bk.close (if r.failEos then Term.completedOk else Term.withError) := by
+  have hsf' : ¬ c.sf = true := by rw [hsf]; decide
+  simp only [tryReadyNormalBody, h0, hk, hwin, hsf', if_false, crcCall]
+  exact ⟨rfl, rfl, rfl, rfl, rfl⟩
+
+/-- A reply that ended without delivering the whole announced stream (Content-Length not met: reader
+    failure, premature END_OF_STREAM, permanent socket error, allocation failure) is NEVER followed
+    by a kept-alive connection: the only final state with less than `R` on the wire is `closed`,
+    whose C state is CLOSED, pool destroyed, never reset for a next request (`session` starts no
+    further reply); and what was delivered is a prefix of header ++ content. -/
+theorem truncated_reply_never_kept (r : Resp) (hw : WF r) (allocStart : Bool) (xs : List Round)
+    (hx : ∀ x ∈ xs, x.Legal) :
+    let c := run r (startReply r allocStart) xs
+    (c.st = .closed ∨ c.st = .done) → c.out ≠ stream r →
+    c.st = .closed ∧ c.out <+: stream r ∧ c.bk.cstClosed = true ∧ c.bk.poolLive = false ∧
+    c.bk.poolDestroys = 1 ∧ c.bk.poolResets = 0 ∧ c.bk.respDrops = 1 ∧
+    c.bk.notes.length = (if r.aware then 1 else 0) := by
+  intro c hfin hne
+  have hinv := run_inv hw xs (startReply r allocStart) (start_inv hw allocStart) hx
+  have hcl : c.st = .closed := by
+    rcases hfin with h | h
+    · exact h
+    · exact absurd (done_delivers_all r hw allocStart xs hx h) hne
+  obtain ⟨t, _, h1, _, _, h4, h5, h6, h7, h8, _⟩ := (run_book_inv xs _ (start_book r allocStart)).closed_counts hcl
+  refine ⟨hcl, hinv.pfx, h8, h5, h6, h7, h4, ?_⟩
+  show (run r (startReply r allocStart) xs).bk.notes.length = _
+  rw [h1]; cases r.aware <;> rfl
 
 /-- Uploads, completion: when nothing of the body remains to be processed, the application has
     received exactly the body — whatever short reads, EAGAIN, EINTR happened on the way. -/
@@ -498,6 +545,25 @@ example :
 
 /-- a reset inside the interim message: closed, the final reply is never started -/
 example : exchangeOut exResp2 true [{ s := .short 7 }, { s := .err .ECONNRESET }] [{ s1 := .full }] = http100Continue.take 7 := by
+  decide
+
+/-- a known-size callback reply (7 bytes announced) whose reader ends by END_OF_STREAM too early -/
+def exRespEos : Resp :=
+  { hdr := [72, 84, 84, 80, 13, 10, 13, 10], body := [1, 2, 3, 4, 5, 6, 7], kind := .callback, iov := [],
+    sizeKnown := true, chunked := false, sendBody := true, footer := [48, 13, 10, 13, 10],
+    bufSize := 1024, wbSize := 32768, cbMax := 3, fdOff := 0, sendfile := false, thrPerConn := false,
+    noVec := false, nonblk := true, failEos := true }
+
+set_option maxRecDepth 8192 in
+/-- three content bytes are sent, then the reader reports END_OF_STREAM: closed (never kept), a strict prefix of
+    header ++ content delivered, one completion with the code the library chooses (COMPLETED_OK), response and
+    pool released once; a pipelined follower is not served on that connection -/
+example :
+    let xs : List Round := [{ s1 := .full }, { s1 := .full }, { s1 := .full, appW := .err, appI := .err }, { s1 := .full }]
+    let c := run exRespEos (startReply exRespEos true) xs
+    c.st = .closed ∧ c.out = exRespEos.hdr ++ [1, 2, 3] ∧ c.out ≠ stream exRespEos ∧
+    c.bk.notes = [Term.completedOk] ∧ c.bk.respDrops = 1 ∧ c.bk.poolDestroys = 1 ∧ c.bk.poolResets = 0 ∧
+    session [(exRespEos, true, xs), (exResp2, true, [{ s1 := .full }])] = exRespEos.hdr ++ [1, 2, 3] := by
   decide
 
 end Mhd.C07
